@@ -81,7 +81,8 @@ def run_isolated(mid, props):
     d = os.path.join(SEEDED, mid)
     meta = json.load(open(os.path.join(d, "meta.json")))
     props = props or [meta["property"]]
-    copy = "/tmp/repo_copy"
+    slot = os.environ.get("SEED_SLOT", "")
+    copy = "/tmp/repo_copy" + slot
     sh(f"rm -rf {copy} && mkdir -p {copy} && rsync -a --exclude target /repo/ {copy}/")
     rc, out = sh(f"git apply {os.path.join(d, 'patch.diff')}", cwd=copy)
     if rc != 0:
@@ -91,7 +92,7 @@ def run_isolated(mid, props):
     for p in props:
         t0 = time.time()
         rc, out = sh(f"unshare -m bash -c 'mount --bind {copy} /repo && cd {ROOT} && python3 check.py {p} --tier quick'", timeout=3600,
-                     env={"VERIF_TARGET_DIR": "/tmp/seed_target"})
+                     env={"VERIF_TARGET_DIR": "/tmp/seed_target" + slot})
         vio = [l for l in out.splitlines() if l.startswith("VIOLATION")]
         first = ""
         lines = out.splitlines()
